@@ -462,10 +462,10 @@ func c08H2SeqGen(yield func(c08.Case) bool) {
 	}
 	thirds := []third{{"none", true, 0, 0}, {"CONTINUATION+END_HEADERS len 0", false, 0x04, 0}, {"CONTINUATION+END_HEADERS len 2", false, 0x04, 2},
 		{"CONTINUATION len 1", false, 0x00, 1}}
-	out := func(class, desc string, b []byte) bool {
+	out := func(class, frame, desc string, b []byte) bool {
 		h := hex.EncodeToString(b)
 		for _, e := range c08GridEntries {
-			if !yield(c08.Case{Target: "h2grid/" + e, Frame: class, Class: class, Desc: desc, Hex: h, Extra: e}) {
+			if !yield(c08.Case{Target: "h2grid/" + e, Frame: frame, Class: class, Desc: desc, Hex: h, Extra: e}) {
 				return false
 			}
 		}
@@ -544,7 +544,7 @@ func c08H2SeqGen(yield func(c08.Case) bool) {
 										}
 										desc := fmt.Sprintf("HEADERS flags=%#02x len=%d pad=%d sid=1 | %s flags=%#02x len=%d sid=%#08x | %s; fill=%s",
 											flags, L1, pad, s.name, f2flags, L2, sid2, th.name, c08FillNames[fill])
-										if !out("HEADERS+"+s.name, desc, b) {
+										if !out("HEADERS+next", "HEADERS+"+s.name, desc, b) {
 											return
 										}
 									}
@@ -567,12 +567,14 @@ func c08H2GridBound() string {
 }
 
 func TestVerifC08H2Grid(t *testing.T) {
+	t.Parallel() // (each part enumerates in its own child process)
 	c08.Main(t, c08.Spec{Prop: "C08", Part: "h2grid", Budget: time.Duration(vreport.Pick(6, 30)) * time.Minute,
 		Gen: c08H2GridGen, Exec: c08ExecH2Grid, Judge: c08JudgeH2Grid,
 		Bound: c08H2GridBound(), Rule: c08H2GridRule})
 }
 
 func TestVerifC08H2GridSeq(t *testing.T) {
+	t.Parallel() // (each part enumerates in its own child process)
 	c08.Main(t, c08.Spec{Prop: "C08", Part: "h2grid-seq", Budget: time.Duration(vreport.Pick(6, 30)) * time.Minute,
 		Gen: c08H2SeqGen, Exec: c08ExecH2Grid, Judge: c08JudgeH2Grid,
 		Bound: fmt.Sprintf("HEADERS {all 16 combinations of END_STREAM END_HEADERS PADDED PRIORITY} x payload length 0..%d x pad length {0..len+1,255} on stream 1, followed by {CONTINUATION flags {0,0x4,0xfb,0xff} x length 0..%d x stream id {1,3,0,1|R}; DATA; HEADERS (END_HEADERS; +PADDED|PRIORITY); PRIORITY; SETTINGS; unknown type}, followed by {nothing; CONTINUATION+END_HEADERS length 0 / 2; CONTINUATION without END_HEADERS}; the hpack fill is one valid block distributed over the fragments (%d fills); x 3 entry points",
